@@ -88,23 +88,34 @@ Section P.
   Variable fs : str -> option (list N).
   Variable dec : list N -> option str.
   Variable enc : str -> option (list N).
+  Variable tr : str -> str.
   Variable A : Type.
   Variable parse : str -> A.
   Hypothesis codec : forall s b, enc s = Some b -> dec b = Some s.
+  Hypothesis dec_nil : dec [] = Some [].
 
   Lemma read_path_content p b s :
-    fs p = Some b -> dec b = Some s -> fs s = None ->
-    read_any fs dec A parse p = read_any fs dec A parse s.
-  Proof. intros Hp Hd Hs. unfold read_any. rewrite Hp, Hd, Hs. reflexivity. Qed.
+    fs p = Some b -> dec b = Some s -> tr s = s -> fs s = None ->
+    read_any fs dec tr A parse p = read_any fs dec tr A parse s.
+  Proof. intros Hp Hd Ht Hs. unfold read_any. rewrite Hp, Hd, Hs. cbn [option_map]. rewrite Ht. reflexivity. Qed.
 
-  Lemma write_path_decodes text b : write_path enc text = Some b -> dec b = Some (write_mem text).
-  Proof. unfold write_path, write_mem. apply codec. Qed.
+  (* in general the path read sees the translated text *)
+  Lemma read_path_translated p b s :
+    fs p = Some b -> dec b = Some s -> read_any fs dec tr A parse p = Some (parse (tr s)).
+  Proof. intros Hp Hd. unfold read_any. rewrite Hp, Hd. reflexivity. Qed.
+
+  Lemma write_path_decodes chunks b : write_path enc chunks = Some b -> dec b = Some (write_mem chunks).
+  Proof.
+    unfold write_path, write_mem. destruct chunks as [|c r].
+    - intro H. inversion H. exact dec_nil.
+    - apply codec.
+  Qed.
 
   (* round trip through disk = round trip through memory *)
-  Lemma disk_roundtrip text b p (fs' : str -> option (list N)) :
-    write_path enc text = Some b -> fs' p = Some b -> fs' (write_mem text) = None ->
-    read_any fs' dec A parse p = read_any fs' dec A parse (write_mem text).
+  Lemma disk_roundtrip (text : list str) b p (fs' : str -> option (list N)) :
+    write_path enc text = Some b -> fs' p = Some b -> tr (write_mem text) = write_mem text -> fs' (write_mem text) = None ->
+    read_any fs' dec tr A parse p = read_any fs' dec tr A parse (write_mem text).
   Proof.
-    intros Hw Hp Hn. unfold read_any. rewrite Hp, (write_path_decodes _ _ Hw), Hn. reflexivity.
+    intros Hw Hp Ht Hn. unfold read_any. rewrite Hp, (write_path_decodes _ _ Hw), Hn. cbn [option_map]. rewrite Ht. reflexivity.
   Qed.
 End P.
